@@ -3,6 +3,7 @@ import PhotVerif.Model.Lazy
 import PhotVerif.Model.ProfileNorm
 import PhotVerif.Gen.Bkg2DTable
 import PhotVerif.Model.Profile
+import PhotVerif.Model.CatSlice
 import PhotVerif.Driver.ApSum
 namespace PhotVerif.Driver
 open PhotVerif PhotVerif.Model.Lazy PhotVerif.Gen.Bkg2DTable
@@ -33,6 +34,18 @@ def handleLazy (op : String) (args : List String) : Option String :=
       let s := Model.ProfileNorm.run Gen.ProfileTable.rows ops
       some ("ok " ++ showRat s.norm ++ " " ++ joinSp (s.sc.map fun o => match o with
         | some v => showRat v | none => "-"))
+  | "catsel", n :: form :: rest => do
+      let n ← parseNat? n
+      let idx ← (match form, rest with
+        | "int", [i] => (parseInt? i).map Model.CatSlice.Index.int
+        | "slice", [a, b, st] => do
+            some (Model.CatSlice.Index.slice (← parseNat? a) (← parseNat? b) (← parseNat? st))
+        | "ints", [is] => (allSome ((is.splitOn ",").map parseInt?)).map Model.CatSlice.Index.ints
+        | "mask", [bits] => (allSome (bits.toList.map fun c => if c == '1' then some true else if c == '0' then some false else none)).map Model.CatSlice.Index.mask
+        | _, _ => none)
+      some (match Model.CatSlice.positions n idx with
+        | none => "err IndexError"
+        | some ps => "ok " ++ (if ps.isEmpty then "-" else ",".intercalate (ps.map toString)))
   | "prof.monoprefix", vs => do
       let v ← allSome (vs.map parseRat?)
       some s!"ok {Model.Profile.monoPrefixLen v}"
